@@ -27,7 +27,9 @@ def build_model_driver():
     if (not os.path.exists(ml)) or os.path.getmtime(ml) < os.path.getmtime(vo):
         common.run(["coqc", "-Q", "..", "IMB", "ExtractRing.v"], cwd=os.path.join(common.COQDIR, "Extract"), check=True)
         for f in ("ring_model.ml", "ring_model.mli"):
-            os.replace(os.path.join(common.VERIF, "ocaml", f), os.path.join(od, f))
+            xd = os.path.join(os.path.dirname(common.COQDIR), "ocaml")      # "../../ocaml" seen from <coq dir>/Extract
+            if os.path.realpath(xd) != os.path.realpath(od):
+                os.replace(os.path.join(xd, f), os.path.join(od, f))
     if (not os.path.exists(exe)) or os.path.getmtime(exe) < max(os.path.getmtime(ml), os.path.getmtime(src)):
         common.run("cp %s %s/ && cd %s && ocamlfind ocamlopt -w -a ring_model.mli ring_model.ml ring_driver.ml -o %s"
                    % (src, od, od, exe), check=True)
